@@ -26,6 +26,10 @@ def c30(tier, seed):
     # C: some tuples travel as contextual tuples of the request
     for m in (["ttu", "wildcard", "condition"] if q else MODELS_ALL):
         jobs.append(J(CMDS, "VerifE30Expand", model=m, maxcands=12, ctx=3, seed=(seed + 1) % 7, timeout_ms=60000, unwind=64, max_paths=20000))
+    # D: the contextual tuples are ALSO stored (nothing rejects a contextual tuple that repeats a stored one): a user is
+    # still listed once
+    for m in (["direct", "wildcard", "userset"] if q else ["direct", "wildcard", "userset", "ttu", "exclusion", "condition"]):
+        jobs.append(J(CMDS, "VerifE30Expand", model=m, maxcands=12, ctx=3, ctxdup=1, invalid=0 if m == "direct" else 1, timeout_ms=60000, unwind=64, max_paths=20000))
     return jobs
 
 
